@@ -284,8 +284,8 @@ func (s *c6Scene) build() gltf.PolyformScene {
 		t.ptr = pt
 	}
 	tex := func(i int) *gltf.PolyformTexture {
-		if i < 0 {
-			return nil
+		if i < 0 || i >= len(s.texs) {
+			return nil // i = len(s.texs): the nil embedded pointer of a PolyformNormal{} / PolyformOcclusion{} literal (round 2)
 		}
 		return s.texs[i].ptr
 	}
@@ -1012,7 +1012,7 @@ func (c *Ctx) c6Mesh(nv int, special int) c6Mesh {
 		m.topo = 1 // points
 	case 3:
 		if c.Rng.Intn(3) == 0 {
-			m.topo = 3 + c.Rng.Intn(3) // line topologies (written without a mode: outside the property's quantifier, still corresponded)
+			m.topo = 2 + c.Rng.Intn(4) // quad and line topologies (written without a mode; inside the quantifier of gltf_scene_topo_full)
 		}
 	}
 	if nv > 0 {
@@ -1730,6 +1730,7 @@ func (c *Ctx) c6Case(s *c6Scene, glb bool, tag string) {
 	panicked := Guard(func() string { o = c6Write(ps, glb); return "" }) == "panic"
 	if panicked {
 		c.Emit("c06.doc", kind+" "+st, "panic")
+		c.Note("write.panic")
 		return
 	}
 	if o.err {
@@ -1756,6 +1757,9 @@ func (c *Ctx) c6Case(s *c6Scene, glb bool, tag string) {
 		c.Emit("c06.holds.dedup", st+" "+o.dtok, "true")
 	}
 	big := len(o.bin) > 100000
+	if !big {
+		c.c6TopoLines(s, st, &o, binTok)
+	}
 	if glb && !big {
 		// the JSON text itself is not modelled (and not even deterministic: extensionsUsed comes out of a Go map):
 		// the file's own JSON chunk, stripped of its padding, is handed over; the model frames it with ITS buffer
@@ -2098,6 +2102,7 @@ func runC06(c *Ctx) {
 		c.c6Case(s, len(order)%2 == 0, "")
 		c.Note("sharedmesh.nil-vs-first-material")
 	}
+	c.c6TopoFixedCases()
 	for k := 0; k < c.N; k++ {
 		level := 2
 		switch k % 5 {
@@ -2121,6 +2126,9 @@ func runC06(c *Ctx) {
 		}
 		if k%10 == 1 && k > 1 {
 			s = c.c6InstShare()
+		}
+		if k%10 == 8 {
+			s = c.c6TopoScene()
 		}
 		c.c6Case(s, k%2 == 0, "")
 	}
